@@ -94,16 +94,17 @@ def op_do(iso, op):
 DEG = [None, "", BOGUS]
 
 
+# unknown names also in the form "valid name in another letter case" (the tables are exact-match)
 def ops_p():
-    return [{"k": "CP", "a": a, "u": u} for a in list(MODES) + DEG for u in list(PRES_U) + DEG]
+    return [{"k": "CP", "a": a, "u": u} for a in list(MODES) + DEG + ["Relative", "ABSOLUTE"] for u in list(PRES_U) + DEG + ["KPA"]]
 
 
 def ops_l():
-    return [{"k": "CL", "a": a, "u": u} for a in list(LBASES) + DEG for u in list(ALL_LMU) + DEG]
+    return [{"k": "CL", "a": a, "u": u} for a in list(LBASES) + DEG + ["Molar"] for u in list(ALL_LMU) + DEG + ["MMOL"]]
 
 
 def ops_m():
-    return [{"k": "CM", "a": a, "u": u} for a in list(MBASES) + DEG for u in list(ALL_LMU) + DEG]
+    return [{"k": "CM", "a": a, "u": u} for a in list(MBASES) + DEG + ["Mass"] for u in list(ALL_LMU) + DEG + ["KG"]]
 
 
 def ops_t():
@@ -113,9 +114,9 @@ def ops_t():
 def random_cv(rng):
     def pick(vals, p_none=0.45):
         return None if rng.random() < p_none else rng.choice(vals)
-    return {"k": "CV", "pa": pick(list(MODES) + [BOGUS], 0.5), "pu": pick(list(PRES_U) + [BOGUS], 0.5),
-            "la": pick(list(LBASES) + [BOGUS], 0.5), "lu": pick(list(ALL_LMU) + [BOGUS], 0.5),
-            "ma": pick(list(MBASES) + [BOGUS], 0.5), "mu": pick(list(ALL_LMU) + [BOGUS], 0.5)}
+    return {"k": "CV", "pa": pick(list(MODES) + [BOGUS, "Relative"], 0.5), "pu": pick(list(PRES_U) + [BOGUS, "KPA"], 0.5),
+            "la": pick(list(LBASES) + [BOGUS, "Molar"], 0.5), "lu": pick(list(ALL_LMU) + [BOGUS, "MMOL"], 0.5),
+            "ma": pick(list(MBASES) + [BOGUS, "Mass"], 0.5), "mu": pick(list(ALL_LMU) + [BOGUS, "KG"], 0.5)}
 
 
 def targeted_cv(rng, s):
